@@ -106,9 +106,158 @@ Proof.
       apply N.eqb_eq in En; subst n. unfold lookup, dmem. now rewrite E.
 Qed.
 
-Section Main.
-  Variable behave : N -> state -> list name -> bool.
+(* ---------- all listeners, re-entrant ones included ---------- *)
+Section General.
+  Variable behave : N -> state -> list name -> reaction.
   Variable vt vu : bool.
+  Variable nested : list (name * val) -> state -> state * result.
+
+  Section Typed.
+  Hypothesis nested_wf : forall kw s, wf s -> wf (fst (nested kw s)).
+
+  Lemma notify_wf ls : forall u s, wf s -> wf (fst (notify behave nested ls u s)).
+  Proof.
+    induction ls as [|l t IH]; simpl; intros u s W; [exact W|].
+    destruct (behave l s u) as [| |kw].
+    - apply IH. exact W.
+    - exact W.
+    - pose proof (nested_wf kw (add_log (Notified l (snapshot (options s)) u KNested) s) W) as H.
+      destruct (nested kw (add_log (Notified l (snapshot (options s)) u KNested) s)) as [s2 [|x|e]];
+        simpl in H; [apply IH, H | apply IH, H | exact H].
+  Qed.
+
+  Lemma update_known_wf kw s : wf s -> wf (fst (update_known behave vt nested kw s)).
+  Proof.
+    intros W. unfold update_known.
+    destruct (filter (is_known (options s)) kw) as [|p l] eqn:EK; [exact W|].
+    destruct (vt && negb (forallb (value_ok (options s)) (p :: l))); [exact W|].
+    pose proof (assign_typed (p :: l) (options s) W) as T.
+    destruct (assign (p :: l) (options s)) as [o1 b]. simpl in T. destruct b; [|exact T].
+    unfold changed_send.
+    pose proof (notify_wf (targets (set_options o1 s) (set_of (map fst (p :: l)))) (set_of (map fst (p :: l)))
+                  (set_options o1 s) T) as W2.
+    destruct (notify behave nested (targets (set_options o1 s) (set_of (map fst (p :: l))))
+                (set_of (map fst (p :: l))) (set_options o1 s)) as [s2 r2]. simpl in W2.
+    destruct r2 as [|e2]; [exact W2|].
+    destruct e2; try exact W2.
+    assert (W3 : wf (set_options (dmap deepcopy_opt (options s)) (add_log Errored s2)))
+      by (apply typed_dmap; [exact typed_deepcopy | exact W]).
+    pose proof (notify_wf (targets (set_options (dmap deepcopy_opt (options s)) (add_log Errored s2))
+                                   (set_of (map fst (p :: l)))) (set_of (map fst (p :: l))) _ W3) as W4.
+    destruct (notify behave nested _ _ (set_options (dmap deepcopy_opt (options s)) (add_log Errored s2)))
+      as [s4 r4]. simpl in W4. destruct r4; exact W4.
+  Qed.
+
+  Lemma update_wf kw s : wf s -> wf (fst (update behave vt vu nested kw s)).
+  Proof.
+    intros W. unfold update.
+    destruct (vu && negb (forallb (is_known (options s)) kw)); [exact W|].
+    pose proof (update_known_wf kw s W) as H.
+    destruct (update_known behave vt nested kw s) as [s1 [[|? ?]|e]]; exact H.
+  Qed.
+
+  Lemma step_wf o s : wf s -> wf (fst (step behave vt vu nested o s)).
+  Proof.
+    intros W. destruct o; simpl.
+    - (* add_option *) unfold add_option.
+      destruct (check_option_type d t) eqn:C; simpl; [|exact W].
+      unfold changed_send.
+      assert (W1 : wf (set_options (dset n (mkOpt t d None) (options s)) s)).
+      { apply typed_dset; [exact W|]. split; simpl; [exact C | intros v Ev; discriminate Ev]. }
+      pose proof (notify_wf (targets (set_options (dset n (mkOpt t d None) (options s)) s) [n]) [n] _ W1) as H.
+      destruct (notify behave nested _ [n] (set_options (dset n (mkOpt t d None) (options s)) s)) as [s2 r].
+      exact H.
+    - pose proof (update_known_wf kw s W) as H.
+      destruct (update_known behave vt nested kw s) as [s1 [u|e]]; exact H.
+    - now apply update_wf.
+    - unfold update_defer. pose proof (update_known_wf kw s W) as H.
+      destruct (update_known behave vt nested kw s) as [s1 [u|e]]; exact H.
+    - unfold setattr. destruct (options s) eqn:E; [exact W|]. now apply update_wf.
+    - unfold reset. unfold changed_send.
+      assert (W1 : wf (set_options (dmap reset_opt (options s)) s))
+        by (apply typed_dmap; [exact typed_reset | exact W]).
+      pose proof (notify_wf (targets (set_options (dmap reset_opt (options s)) s) (set_of (map fst (options s))))
+                    (set_of (map fst (options s))) _ W1) as H.
+      destruct (notify behave nested _ (set_of (map fst (options s))) (set_options (dmap reset_opt (options s)) s))
+        as [s2 r]. exact H.
+    - unfold subscribe. destruct (forallb (fun n => dmem n (options s)) opts); exact W.
+    - exact W.
+    - unfold set_specs. destruct (parse_known (group_specs specs) (options s)) as [processed|e]; [|exact W].
+      destruct defer.
+      + apply update_wf. exact W.
+      + destruct (filter (fun p => negb (dmem (fst p) (options s))) (group_specs specs)); [|exact W].
+        now apply update_wf.
+    - unfold process_deferred. destruct (collect_deferred (deferred s) (options s)) as [upd|e]; [|exact W].
+      pose proof (update_wf upd s W) as H.
+      destruct (update behave vt vu nested upd s) as [s1 [|u|e]]; exact H.
+  Qed.
+
+  Lemma run_wf ops : forall s, wf s -> wf (run behave vt vu nested ops s).
+  Proof. induction ops as [|o t IH]; simpl; intros s W; [exact W | apply IH, step_wf, W]. Qed.
+  End Typed.
+
+  (* a send to listeners that do not react with a nested update while the options are O leaves them O *)
+  Lemma notify_quiet O u ls : forall s,
+    (forall l st kw, options st = O -> behave l st u <> Nested kw) ->
+    options s = O -> options (fst (notify behave nested ls u s)) = O.
+  Proof.
+    induction ls as [|l t IH]; simpl; intros s Q E; [exact E|].
+    destruct (behave l s u) as [| |kw] eqn:B.
+    - apply IH; [exact Q | exact E].
+    - exact E.
+    - exfalso. exact (Q l s kw E B).
+  Qed.
+
+  (* rollback restores the FULL option set, whatever nested updates the listeners made before the rejection,
+     provided no listener answers the re-notification (where the options are the restored ones) with another
+     nested update *)
+  Theorem update_known_rejected_general kw s s' :
+    update_known behave vt nested kw s = (s', UErr EOptionsError) ->
+    (forall l st kw', options st = dmap deepcopy_opt (options s) ->
+        behave l st (set_of (map fst (filter (is_known (options s)) kw))) <> Nested kw') ->
+    restored (options s) (options s').
+  Proof.
+    unfold update_known. intros H Q.
+    destruct (filter (is_known (options s)) kw) as [|p l] eqn:EK; [discriminate|].
+    destruct (vt && negb (forallb (value_ok (options s)) (p :: l))); [discriminate|].
+    destruct (assign (p :: l) (options s)) as [o1 b]. destruct b; [|discriminate].
+    destruct (changed_send behave nested (set_of (map fst (p :: l))) (set_options o1 s)) as [s2 r2].
+    destruct r2 as [|e2]; [discriminate|].
+    destruct e2; try discriminate.
+    unfold changed_send in H.
+    pose proof (notify_quiet (dmap deepcopy_opt (options s)) (set_of (map fst (p :: l)))
+                  (targets (set_options (dmap deepcopy_opt (options s)) (add_log Errored s2)) (set_of (map fst (p :: l))))
+                  (set_options (dmap deepcopy_opt (options s)) (add_log Errored s2)) Q eq_refl) as HO.
+    destruct (notify behave nested _ _ (set_options (dmap deepcopy_opt (options s)) (add_log Errored s2)))
+      as [s4 r4]. simpl in HO.
+    assert (s' = s4) by (destruct r4; inversion H; reflexivity). subst s4.
+    rewrite HO. apply restored_deepcopy.
+  Qed.
+End General.
+
+Lemma init_wf : wf init.
+Proof. constructor. Qed.
+
+Lemma nested_update_wf behave vt vu fuel : forall kw s, wf s -> wf (fst (nested_update behave vt vu fuel kw s)).
+Proof.
+  induction fuel as [|f IH]; simpl; intros kw s W; [exact W|].
+  apply update_wf; [exact IH | exact W].
+Qed.
+
+(* every option always holds a value of its declared type: all listeners (re-entrant too), any nesting depth *)
+Theorem always_typed behave vt vu fuel ops n o :
+  dget n (options (trun behave vt vu fuel ops init)) = Some o ->
+  check_option_type (current o) (otype o) = true /\ check_option_type (odefault o) (otype o) = true.
+Proof.
+  intros H. pose proof (run_wf behave vt vu _ (nested_update_wf behave vt vu fuel) ops init init_wf) as W.
+  pose proof (typed_dget _ _ _ W H) as T. split; [now apply typed_current | exact (proj1 T)].
+Qed.
+
+Section Main.
+  Variable behave : N -> state -> list name -> reaction.
+  Variable vt vu : bool.
+  Variable nested : list (name * val) -> state -> state * result.
+  Hypothesis NR : non_reentrant behave.     (* this section: listeners that do not re-enter the manager *)
 
   Definition rest_static (s s' : state) : Prop :=
     deferred s' = deferred s /\ subscriptions s' = subscriptions s /\ receivers s' = receivers s.
@@ -141,7 +290,7 @@ Section Main.
     end.
 
   Lemma update_known_spec kw s s' r :
-    update_known behave vt kw s = (s', r) -> update_known_post kw s s' r.
+    update_known behave vt nested kw s = (s', r) -> update_known_post kw s s' r.
   Proof.
     unfold update_known, update_known_post.
     destruct (filter (is_known (options s)) kw) as [|p l] eqn:EK.
@@ -150,20 +299,28 @@ Section Main.
       destruct (vt && negb (forallb (value_ok (options s)) known)) eqn:EP.
       + intros H; inversion H; subst. split; [repeat split|]. now left.
       + destruct (assign known (options s)) as [o1 b] eqn:EA. destruct b.
-        * destruct (changed_send behave U (set_options o1 s)) as [s2 ok] eqn:E2.
-          unfold changed_send in E2. apply notify_spec in E2 as [evs [L2 [St2 [Sh2 [Ok2 No2]]]]].
+        * destruct (changed_send behave nested U (set_options o1 s)) as [s2 r2] eqn:E2.
+          unfold changed_send in E2. apply (notify_spec _ _ NR) in E2 as [evs [L2 [St2 [Sh2 [Ok2 No2]]]]].
           destruct St2 as [So2 [Sd2 [Ss2 Sr2]]]. simpl in *.
-          destruct ok.
+          destruct r2 as [|e2].
           -- intros H; inversion H; subst s2 r; clear H.
              split; [repeat split; assumption|]. split; [reflexivity|]. right.
              split; [discriminate|]. exists evs. rewrite So2.
              destruct (Ok2 eq_refl) as [O1 O2].
              repeat split; assumption.
-          -- destruct (changed_send behave U (set_options (dmap deepcopy_opt (options s)) (add_log Errored s2)))
-               as [s4 ok4] eqn:E4.
-             unfold changed_send in E4. apply notify_spec in E4 as [evs4 [L4 [St4 [Sh4 [Ok4 No4]]]]].
+          -- assert (Hne : NRaised e2 <> NOk) by discriminate.
+             destruct (No2 Hne) as [He2 [pre [rest [e [tl [E1 [E3 [E5 _]]]]]]]].
+             inversion He2; subst e2. cbn iota.
+             destruct (changed_send behave nested U (set_options (dmap deepcopy_opt (options s)) (add_log Errored s2)))
+               as [s4 r4] eqn:E4.
+             unfold changed_send in E4. apply (notify_spec _ _ NR) in E4 as [evs4 [L4 [St4 [Sh4 [Ok4 No4]]]]].
              destruct St4 as [So4 [Sd4 [Ss4 Sr4]]]. simpl in *.
-             intros H; inversion H; subst s4 r; clear H.
+             assert (Hr : (match r4 with NOk => (s4, UErr EOptionsError) | NRaised e0 => (s4, UErr e0) end)
+                          = (s4, UErr EOptionsError)).
+             { destruct r4 as [|e4]; [reflexivity|].
+               assert (Hne4 : NRaised e4 <> NOk) by discriminate.
+               destruct (No4 Hne4) as [He4 _]. inversion He4; reflexivity. }
+             rewrite Hr. intros H; inversion H; subst s4 r; clear H.
              split; [repeat split; congruence|].
              exists o1, evs, evs4.
              assert (T4 : targets (set_options (dmap deepcopy_opt (options s)) (add_log Errored s2)) U = targets s U)
@@ -172,12 +329,12 @@ Section Main.
              split; [rewrite L4, L2; reflexivity|].
              split; [exact Sh2|]. split; [rewrite So4; exact Sh4|].
              split.
-             ++ destruct (No2 eq_refl) as [pre [rest [e [tl [E1 [E3 [E5 _]]]]]]].
-                intros x Hx. apply in_rev in Hx. rewrite E5 in Hx.
+             ++ intros x Hx. apply in_rev in Hx. rewrite E5 in Hx.
                 unfold targets in E1; simpl in E1. unfold targets. rewrite E1. apply in_or_app; now left.
-             ++ intros Hall. destruct ok4.
+             ++ intros Hall. destruct r4 as [|e4].
                 ** destruct (Ok4 eq_refl) as [O1 _]. now rewrite O1, T4.
-                ** destruct (No4 eq_refl) as [pre [rest [e [tl [_ [E3 [_ [E6 _]]]]]]]].
+                ** assert (Hne4 : NRaised e4 <> NOk) by discriminate.
+                   destruct (No4 Hne4) as [_ [pre4 [rest4 [e0 [tl4 [_ [E3' [_ [E6 _]]]]]]]]].
                    subst evs4. simpl in Hall. rewrite E6 in Hall. discriminate.
         * intros H; inversion H; subst; clear H. split; [repeat split|].
           destruct vt.
@@ -187,87 +344,11 @@ Section Main.
           -- right. split; [reflexivity|]. split; [reflexivity|]. exists o1. split; reflexivity.
   Qed.
 
-  (* ---------- T1: values always have the declared type ---------- *)
-  Lemma update_known_wf kw s : wf s -> wf (fst (update_known behave vt kw s)).
-  Proof.
-    intros W. destruct (update_known behave vt kw s) as [s' r] eqn:E. simpl.
-    apply update_known_spec in E. unfold update_known_post in E. destruct E as [_ E].
-    destruct r as [u|[]]; try contradiction.
-    - destruct E as [_ [[_ ->]|[_ [evs [EA _]]]]]; [exact W|].
-      pose proof (assign_typed (filter (is_known (options s)) kw) (options s) W) as T.
-      rewrite EA in T. exact T.
-    - destruct E as [->|[_ [_ [o1 [EA Eo]]]]]; [exact W|].
-      pose proof (assign_typed (filter (is_known (options s)) kw) (options s) W) as T.
-      rewrite EA in T. unfold wf. rewrite Eo. exact T.
-    - destruct E as [o1 [first [second [_ [Eo _]]]]]. unfold wf. rewrite Eo.
-      apply typed_dmap; [exact typed_deepcopy | exact W].
-  Qed.
-
-  Lemma update_wf kw s : wf s -> wf (fst (update behave vt vu kw s)).
-  Proof.
-    intros W. unfold update.
-    destruct (vu && negb (forallb (is_known (options s)) kw)); [exact W|].
-    pose proof (update_known_wf kw s W) as H.
-    destruct (update_known behave vt kw s) as [s1 [[|? ?]|e]]; exact H.
-  Qed.
-
-  Lemma notify_wf ls u s : wf s -> wf (fst (notify behave ls u s)).
-  Proof. intros W. unfold wf. destruct (notify_static behave ls u s) as [-> _]. exact W. Qed.
-
-  Lemma step_wf o s : wf s -> wf (fst (step behave vt vu o s)).
-  Proof.
-    intros W. destruct o; simpl.
-    - (* add_option *) unfold add_option.
-      destruct (check_option_type d t) eqn:C; simpl; [|exact W].
-      destruct (changed_send behave [n] (set_options (dset n (mkOpt t d None) (options s)) s)) as [s2 ok] eqn:E.
-      simpl. pose proof (notify_wf (targets (set_options (dset n (mkOpt t d None) (options s)) s) [n]) [n]
-                           (set_options (dset n (mkOpt t d None) (options s)) s)) as H.
-      unfold changed_send in E. rewrite E in H. apply H.
-      apply typed_dset; [exact W|]. split; simpl; [exact C | intros v Ev; discriminate Ev].
-    - pose proof (update_known_wf kw s W) as H.
-      destruct (update_known behave vt kw s) as [s1 [u|e]]; exact H.
-    - now apply update_wf.
-    - unfold update_defer. pose proof (update_known_wf kw s W) as H.
-      destruct (update_known behave vt kw s) as [s1 [u|e]]; exact H.
-    - unfold setattr. destruct (options s) eqn:E; [exact W|]. now apply update_wf.
-    - unfold reset.
-      destruct (changed_send behave (set_of (map fst (options s))) (set_options (dmap reset_opt (options s)) s))
-        as [s2 ok] eqn:E. simpl.
-      pose proof (notify_wf (targets (set_options (dmap reset_opt (options s)) s) (set_of (map fst (options s))))
-                    (set_of (map fst (options s))) (set_options (dmap reset_opt (options s)) s)) as H.
-      unfold changed_send in E. rewrite E in H. apply H.
-      apply typed_dmap; [exact typed_reset | exact W].
-    - unfold subscribe. destruct (forallb (fun n => dmem n (options s)) opts); exact W.
-    - exact W.
-    - unfold set_specs. destruct (parse_known (group_specs specs) (options s)) as [processed|e]; [|exact W].
-      destruct defer.
-      + apply update_wf. exact W.
-      + destruct (filter (fun p => negb (dmem (fst p) (options s))) (group_specs specs)); [|exact W].
-        now apply update_wf.
-    - unfold process_deferred. destruct (collect_deferred (deferred s) (options s)) as [upd|e]; [|exact W].
-      pose proof (update_wf upd s W) as H.
-      destruct (update behave vt vu upd s) as [s1 [|u|e]]; exact H.
-  Qed.
-
-  Theorem run_wf ops : forall s, wf s -> wf (run behave vt vu ops s).
-  Proof. induction ops as [|o t IH]; simpl; intros s W; [exact W | apply IH, step_wf, W]. Qed.
-
-  Lemma init_wf : wf init.
-  Proof. constructor. Qed.
-
-  Theorem always_typed ops n o :
-    dget n (options (run behave vt vu ops init)) = Some o ->
-    check_option_type (current o) (otype o) = true /\ check_option_type (odefault o) (otype o) = true.
-  Proof.
-    intros H. pose proof (run_wf ops init init_wf) as W.
-    pose proof (typed_dget _ _ _ W H) as T. split; [now apply typed_current | exact (proj1 T)].
-  Qed.
-
   (* ---------- T2: a rejected update leaves every option at its previous value ---------- *)
   Definition atomic_guard (e : err) : Prop := (e = ETypeError -> vt = true) /\ (e = EKeyError -> vu = true).
 
   Lemma update_known_rejected kw s s' e :
-    update_known behave vt kw s = (s', UErr e) -> (e = ETypeError -> vt = true) ->
+    update_known behave vt nested kw s = (s', UErr e) -> (e = ETypeError -> vt = true) ->
     restored (options s) (options s') /\ deferred s' = deferred s.
   Proof.
     intros H G. apply update_known_spec in H. destruct H as [[Hd _] H].
@@ -278,13 +359,13 @@ Section Main.
   Qed.
 
   Lemma update_rejected kw s s' e :
-    update behave vt vu kw s = (s', RErr e) -> atomic_guard e ->
+    update behave vt vu nested kw s = (s', RErr e) -> atomic_guard e ->
     restored (options s) (options s') /\ deferred s' = deferred s.
   Proof.
     unfold update. intros H [G1 G2].
     destruct (vu && negb (forallb (is_known (options s)) kw)) eqn:EP.
     - inversion H; subst. split; [apply restored_refl | reflexivity].
-    - destruct (update_known behave vt kw s) as [s1 [u|e1]] eqn:EU.
+    - destruct (update_known behave vt nested kw s) as [s1 [u|e1]] eqn:EU.
       + destruct u as [|p u]; [discriminate|]. inversion H; subst s1 e; clear H.
         exfalso. rewrite (G2 eq_refl) in EP. simpl in EP. apply negb_false_iff in EP.
         apply update_known_spec in EU. destruct EU as [_ [EU _]].
@@ -299,15 +380,15 @@ Section Main.
     end.
 
   Theorem rejected_restores o s s' e :
-    updateish o = true -> step behave vt vu o s = (s', RErr e) -> atomic_guard e ->
+    updateish o = true -> step behave vt vu nested o s = (s', RErr e) -> atomic_guard e ->
     restored (options s) (options s').
   Proof.
     intros U H G. destruct o; simpl in U; try discriminate; simpl in H.
-    - destruct (update_known behave vt kw s) as [s1 [u|e1]] eqn:EU; [discriminate|].
+    - destruct (update_known behave vt nested kw s) as [s1 [u|e1]] eqn:EU; [discriminate|].
       inversion H; subst s1 e1. eapply update_known_rejected; [eassumption | apply G].
     - eapply update_rejected; eassumption.
     - unfold update_defer in H.
-      destruct (update_known behave vt kw s) as [s1 [u|e1]] eqn:EU; [discriminate|].
+      destruct (update_known behave vt nested kw s) as [s1 [u|e1]] eqn:EU; [discriminate|].
       inversion H; subst s1 e1. eapply update_known_rejected; [eassumption | apply G].
     - unfold setattr in H. destruct (options s) eqn:E; [discriminate|].
       rewrite <- E. eapply update_rejected; eassumption.
@@ -321,7 +402,7 @@ Section Main.
       + inversion H; subst. apply restored_refl.
     - unfold process_deferred in H.
       destruct (collect_deferred (deferred s) (options s)) as [upd|e1].
-      + destruct (update behave vt vu upd s) as [s1 r1] eqn:EU.
+      + destruct (update behave vt vu nested upd s) as [s1 r1] eqn:EU.
         destruct r1 as [|u|e1]; [discriminate | discriminate |].
         inversion H; subst s1 e1. apply update_rejected in EU; [|exact G]. apply EU.
       + inversion H; subst. apply restored_refl.
@@ -329,11 +410,11 @@ Section Main.
 
   (* a failed process_deferred keeps the deferred values for a later attempt *)
   Theorem process_deferred_failed_keeps_deferred s s' e :
-    process_deferred behave vt vu s = (s', RErr e) -> atomic_guard e -> deferred s' = deferred s.
+    process_deferred behave vt vu nested s = (s', RErr e) -> atomic_guard e -> deferred s' = deferred s.
   Proof.
     unfold process_deferred. intros H G.
     destruct (collect_deferred (deferred s) (options s)) as [upd|e1].
-    - destruct (update behave vt vu upd s) as [s1 r1] eqn:EU.
+    - destruct (update behave vt vu nested upd s) as [s1 r1] eqn:EU.
       destruct r1 as [|u|e1]; [discriminate | discriminate |].
       inversion H; subst s1 e1. apply update_rejected in EU; [|exact G]. apply EU.
     - inversion H; subst. reflexivity.
@@ -349,7 +430,7 @@ Section Main.
   Proof. intros H. exists []. split; [exact H|]. intros _ l []. Qed.
 
   Lemma update_known_renotified kw s s' e :
-    update_known behave vt kw s = (s', UErr e) -> renotified s s'.
+    update_known behave vt nested kw s = (s', UErr e) -> renotified s s'.
   Proof.
     intros H. apply update_known_spec in H. destruct H as [_ H].
     destruct e; try contradiction.
@@ -365,24 +446,24 @@ Section Main.
   Qed.
 
   Lemma update_renotified kw s s' :
-    update behave vt vu kw s = (s', RErr EOptionsError) -> renotified s s'.
+    update behave vt vu nested kw s = (s', RErr EOptionsError) -> renotified s s'.
   Proof.
     unfold update. intros H.
     destruct (vu && negb (forallb (is_known (options s)) kw)); [discriminate|].
-    destruct (update_known behave vt kw s) as [s1 [u|e1]] eqn:EU.
+    destruct (update_known behave vt nested kw s) as [s1 [u|e1]] eqn:EU.
     - destruct u; discriminate.
     - inversion H; subst. eapply update_known_renotified; eassumption.
   Qed.
 
   Theorem rejected_renotifies o s s' :
-    updateish o = true -> step behave vt vu o s = (s', RErr EOptionsError) -> renotified s s'.
+    updateish o = true -> step behave vt vu nested o s = (s', RErr EOptionsError) -> renotified s s'.
   Proof.
     intros U H. destruct o; simpl in U; try discriminate; simpl in H.
-    - destruct (update_known behave vt kw s) as [s1 [u|e1]] eqn:EU; [discriminate|].
+    - destruct (update_known behave vt nested kw s) as [s1 [u|e1]] eqn:EU; [discriminate|].
       inversion H; subst. eapply update_known_renotified; eassumption.
     - now apply update_renotified in H.
     - unfold update_defer in H.
-      destruct (update_known behave vt kw s) as [s1 [u|e1]] eqn:EU; [discriminate|].
+      destruct (update_known behave vt nested kw s) as [s1 [u|e1]] eqn:EU; [discriminate|].
       inversion H; subst. eapply update_known_renotified; eassumption.
     - unfold setattr in H. destruct (options s) eqn:E; [discriminate|].
       now apply update_renotified in H.
@@ -396,7 +477,7 @@ Section Main.
       + inversion H; subst. now apply renotified_same_log.
     - unfold process_deferred in H.
       destruct (collect_deferred (deferred s) (options s)) as [upd|e1].
-      + destruct (update behave vt vu upd s) as [s1 r1] eqn:EU.
+      + destruct (update behave vt vu nested upd s) as [s1 r1] eqn:EU.
         destruct r1 as [|u|e1]; [discriminate | discriminate |].
         inversion H; subst. now apply update_renotified in EU.
       + inversion H; subst. now apply renotified_same_log.
@@ -404,7 +485,7 @@ Section Main.
 
   (* ---------- T4: an accepted update assigns and notifies exactly the given known names ---------- *)
   Theorem accepted_notifies kw s s' unknown :
-    update_known behave vt kw s = (s', UOk unknown) ->
+    update_known behave vt nested kw s = (s', UOk unknown) ->
     let known := filter (is_known (options s)) kw in
     let U := set_of (map fst known) in
     unknown = filter (fun p => negb (is_known (options s) p)) kw
@@ -437,57 +518,84 @@ End Main.
 Local Open Scope N_scope.
 
 (* ---------- the findings, as concrete counterexamples on the unchanged code (vt = vu = false) ---------- *)
-Definition always_ok (l : N) (s : state) (u : list name) : bool := true.
+Definition always_ok (l : N) (s : state) (u : list name) : reaction := Accept.
 
 Definition two_options : list op :=
   [AddOption 0 (TBase BInt) (VInt 0%Z); AddOption 1 (TBase BStr) (VStr [])].
 
 (* update(o0=5, o1=7): o1 is a str option, TypeError -- but o0 stays 5 *)
 Lemma typeerror_refuted :
-  exists kw s', let s := run always_ok false false two_options init in
-    step always_ok false false (Update kw) s = (s', RErr ETypeError)
+  exists kw s', let s := trun always_ok false false 5 two_options init in
+    tstep always_ok false false 5 (Update kw) s = (s', RErr ETypeError)
     /\ lookup (options s) 0 = Some (VInt 0%Z) /\ lookup (options s') 0 = Some (VInt 5%Z).
 Proof. exists [(0, VInt 5%Z); (1, VInt 7%Z)]. eexists. vm_compute. repeat split. Qed.
 
 (* update(o0=5, o9=1): o9 does not exist, KeyError -- but o0 stays 5 *)
 Lemma keyerror_refuted :
-  exists kw s', let s := run always_ok false false two_options init in
-    step always_ok false false (Update kw) s = (s', RErr EKeyError)
+  exists kw s', let s := trun always_ok false false 5 two_options init in
+    tstep always_ok false false 5 (Update kw) s = (s', RErr EKeyError)
     /\ lookup (options s) 0 = Some (VInt 0%Z) /\ lookup (options s') 0 = Some (VInt 5%Z).
 Proof. exists [(0, VInt 5%Z); (9, VInt 1%Z)]. eexists. vm_compute. repeat split. Qed.
 
 (* listener 0 accepts only while the log is empty; listener 1 refuses the value 9.  update(o0=9): listener 0
    accepts, listener 1 refuses, rollback, listener 0 refuses the re-notification, so listener 1 is never told
    that o0 is 0 again. *)
-Definition fussy (l : N) (s : state) (u : list name) : bool :=
-  if N.eqb l 0 then match log s with [] => true | _ => false end
-  else match lookup (options s) 0 with Some (VInt 9%Z) => false | _ => true end.
+Definition fussy (l : N) (s : state) (u : list name) : reaction :=
+  if N.eqb l 0 then match log s with [] => Accept | _ => Reject end
+  else match lookup (options s) 0 with Some (VInt 9%Z) => Reject | _ => Accept end.
 
 Definition fussy_setup : list op :=
   [AddOption 0 (TBase BInt) (VInt 0%Z); Connect 0; Connect 1].
 
 Lemma renotify_refuted :
-  exists kw s' sn, let s := run fussy false false fussy_setup init in
-    step fussy false false (Update kw) s = (s', RErr EOptionsError)
+  exists kw s' sn, let s := trun fussy false false 5 fussy_setup init in
+    tstep fussy false false 5 (Update kw) s = (s', RErr EOptionsError)
     /\ last_seen 1 (log s') = Some sn
     /\ sn = [(0, VInt 9%Z)] /\ snapshot (options s') = [(0, VInt 0%Z)].
 Proof. exists [(0, VInt 9%Z)]. eexists. eexists. vm_compute. repeat split. Qed.
 
 (* non-vacuity: a rejecting listener, a rejected update, the value restored, and the listener re-notified *)
-Definition picky (l : N) (s : state) (u : list name) : bool :=
-  match lookup (options s) 0 with Some (VInt 9%Z) => false | _ => true end.
+Definition picky (l : N) (s : state) (u : list name) : reaction :=
+  match lookup (options s) 0 with Some (VInt 9%Z) => Reject | _ => Accept end.
+
+Lemma picky_nr : non_reentrant picky.
+Proof. intros l s u kw. unfold picky. destruct (lookup (options s) 0) as [[| | [|[]|] | | |]|]; discriminate. Qed.
 
 Lemma nonvacuous :
-  exists s', let s := run picky false false [AddOption 0 (TBase BInt) (VInt 0%Z); Connect 7; Update [(0, VInt 3%Z)]] init in
-    step picky false false (Update [(0, VInt 9%Z)]) s = (s', RErr EOptionsError)
+  exists s', let s := trun picky false false 5 [AddOption 0 (TBase BInt) (VInt 0%Z); Connect 7; Update [(0, VInt 3%Z)]] init in
+    tstep picky false false 5 (Update [(0, VInt 9%Z)]) s = (s', RErr EOptionsError)
     /\ lookup (options s) 0 = Some (VInt 3%Z) /\ lookup (options s') 0 = Some (VInt 3%Z)
     /\ length (log s') = 4%nat
     /\ last_seen 7 (log s') = Some [(0, VInt 3%Z)].
 Proof. eexists. vm_compute. repeat split. Qed.
 
+(* non-vacuity for re-entrant listeners: listener 0 answers o0 = 9 with a nested update(o1 = 1080); listener 1
+   then refuses o0 = 9.  The nested update was accepted (o1 really became 1080 and listener 1 saw it), yet after
+   the rejection BOTH options are back and both listeners last saw the restored values. *)
+Definition dependent (l : N) (s : state) (u : list name) : reaction :=
+  match lookup (options s) 0 with
+  | Some (VInt 9%Z) =>
+      if N.eqb l 0
+      then (if nmem 0 u then Nested [(1, VInt 1080%Z)] else Accept)
+      else (if nmem 0 u then Reject else Accept)
+  | _ => Accept
+  end.
+
+Lemma nested_nonvacuous :
+  exists s', let s := trun dependent false false 5
+       [AddOption 0 (TBase BInt) (VInt 0%Z); AddOption 1 (TBase BInt) (VInt 8080%Z); Connect 0; Connect 1] init in
+    update_known dependent false (nested_update dependent false false 5) [(0, VInt 9%Z)] s = (s', UErr EOptionsError)
+    /\ snapshot (options s) = [(0, VInt 0%Z); (1, VInt 8080%Z)]
+    /\ snapshot (options s') = [(0, VInt 0%Z); (1, VInt 8080%Z)]
+    /\ In (Notified 1 [(0, VInt 9%Z); (1, VInt 1080%Z)] [1] KAccept) (log s')
+    /\ last_seen 0 (log s') = Some [(0, VInt 0%Z); (1, VInt 8080%Z)]
+    /\ last_seen 1 (log s') = Some [(0, VInt 0%Z); (1, VInt 8080%Z)].
+Proof. eexists. vm_compute. repeat split. right; right; right; right; left; reflexivity. Qed.
+
 (* with the repair (vt = vu = true) the guard of rejected_restores is vacuous *)
-Lemma rejected_restores_repaired behave o s s' e :
-  updateish o = true -> step behave true true o s = (s', RErr e) -> restored (options s) (options s').
+Lemma rejected_restores_repaired behave nested o s s' e :
+  non_reentrant behave ->
+  updateish o = true -> step behave true true nested o s = (s', RErr e) -> restored (options s) (options s').
 Proof.
-  intros U H. eapply rejected_restores; [exact U | exact H | split; intros _; reflexivity].
+  intros NR U H. eapply rejected_restores; [exact NR | exact U | exact H | split; intros _; reflexivity].
 Qed.
